@@ -9,6 +9,7 @@ from ..evidence import Report
 
 PROP = 'C19'
 SEPS = (' ', '\n', '\t', '\r\n', '  ', '\x0b', '\x0c', ' \n ')
+ALL_WS = tuple(chr(c) for c in range(256) if chr(c).isspace())
 BAD_TEXT = ('F0 1 F7', 'F0 0G F7', 'F0 01 F', 'xyz', 'F0 01 F7 F', '0xF0 0xF7',
             'F0,01,F7', 'G0 01 F7', '1')
 
@@ -45,8 +46,12 @@ def check_list(mido, d, msgs, acc, idx_desc):
             acc.nontrivial += 1
         fn = os.path.join(d, f'f{os.getpid()}.syx')
         case = {'kind': 'list', 'msgs': idx_desc, 'plaintext': plaintext}
+        # the list is handed over in a rotating container form (list, tuple,
+        # generator, iterator, filter object)
+        form = (list, tuple, lambda q: (m for m in q), iter,
+                lambda q: filter(None, q))[(acc.evals + len(msgs)) % 5]
         try:
-            mido.write_syx_file(fn, msgs, plaintext=plaintext)
+            mido.write_syx_file(fn, form(msgs), plaintext=plaintext)
             got = mido.read_syx_file(fn)
         except Exception as e:
             acc.violation(f'roundtrip-raises/{"text" if plaintext else "binary"}'
@@ -276,6 +281,15 @@ def worker(shard):
                         [0xF0, 1, 2, 3, 0xF7], [0xF0, 1, 1, 2, 0xF7],
                         [0xF0, 0xF7, 0xF0, 0xF7], [0xF0, 0, 0, 0xF7])
             pl = payloads[shard[1]]
+            # every whitespace character of the file's one-byte encoding, one
+            # gap at a time
+            for gap in range(len(pl) - 1):
+                for ws in ALL_WS:
+                    seps = [' '] * (len(pl) - 1)
+                    seps[gap] = ws
+                    check_layout(mido, d, pl, tuple(seps), '', '\n', False, acc)
+                    check_layout(mido, d, pl, (ws,) * (len(pl) - 1), ws, ws,
+                                 True, acc)
             for seps in itertools.product(SEPS, repeat=len(pl) - 1):
                 for lead, trail, lower in (('', '\n', False), (' ', '', True),
                                            ('\n\t', ' \r\n', False)):
@@ -314,7 +328,11 @@ def run():
         f'binary sizes around 4096/8192/65536 bytes; invalid text '
         f'{list(BAD_TEXT)} must raise ValueError; every placement of whitespace between the hex digits of 4 small files (odd-length tokens must raise, all-two-digit layouts must parse). Non-trivial = list mixes '
         f'sysex and other messages, or any layout/invalid-text case')
-    rep.assumptions += ['files are written to a tmpfs scratch directory',
+    rep.assumptions += ['"any whitespace" is read as every character of the '
+                        'latin1-decoded text for which str.isspace() holds '
+                        '(the six ASCII ones, 0x1C-0x1F, 0x85, 0xA0), which is '
+                        'what the reader documents by decoding as latin1',
+                        'files are written to a tmpfs scratch directory',
                         'payload contents beyond the listed ones behave alike']
     return rep
 
